@@ -276,7 +276,7 @@ func runWire(a *args) error {
 	r := rand.New(rand.NewSource(a.seed))
 	n := 800
 	if a.tier == "thorough" {
-		n = 5000
+		n = 40000
 	}
 	if a.n > 0 {
 		n = a.n
